@@ -186,6 +186,30 @@ inline std::string describe(const JVal& v, size_t max = 600) {
   return o;
 }
 
+// path and values of the first difference (ordered comparison)
+inline std::string first_diff(const JVal& x, const JVal& y, const std::string& path = "$") {
+  if (x.k != y.k || (x.k != JVal::Arr && x.k != JVal::Obj))
+    return equal(x, y) ? "" : path + ": " + describe(x, 120) + " vs " + describe(y, 120);
+  if (x.k == JVal::Arr) {
+    if (x.a.size() != y.a.size())
+      return path + ": array sizes " + std::to_string(x.a.size()) + " vs " + std::to_string(y.a.size());
+    for (size_t i = 0; i < x.a.size(); i++) {
+      std::string d = first_diff(x.a[i], y.a[i], path + "[" + std::to_string(i) + "]");
+      if (!d.empty()) return d;
+    }
+    return "";
+  }
+  if (x.o.size() != y.o.size())
+    return path + ": object sizes " + std::to_string(x.o.size()) + " vs " + std::to_string(y.o.size());
+  for (size_t i = 0; i < x.o.size(); i++) {
+    if (x.o[i].first != y.o[i].first)
+      return path + ": key #" + std::to_string(i) + " \"" + vf::printable(x.o[i].first, 60) + "\" vs \"" + vf::printable(y.o[i].first, 60) + "\"";
+    std::string d = first_diff(x.o[i].second, y.o[i].second, path + "." + vf::printable(x.o[i].first, 30));
+    if (!d.empty()) return d;
+  }
+  return "";
+}
+
 inline uint64_t hash_val(const JVal& v, uint64_t h = 1) {
   h = vf::hash_combine(h, v.k);
   switch (v.k) {
@@ -344,6 +368,9 @@ inline bool ref_string(const unsigned char* p, size_t n, size_t& i, std::string*
         uint32_t cp;
         if (!hex4(j + 2, cp)) {
           fault(kFkEscUnicode, j, false);
+          // the hex field is cut by the end of input: reading it as a truncated
+          // escape inside an unterminated literal is equally legitimate
+          if (j + 6 > n) kinds |= kFkUnterminated;
           j += 2;  // lenient: continue after "\u"
           break;
         }
@@ -372,6 +399,8 @@ inline bool ref_string(const unsigned char* p, size_t n, size_t& i, std::string*
       }
       default:
         fault(kFkEscFormat, j, false);
+        // a backslash followed by a raw control byte is also an unescaped control byte
+        if (e < 0x20) fault(kFkUnescaped, j + 1, false);
         j += 2;
     }
   }
@@ -1095,7 +1124,24 @@ inline std::string mutate(const std::string& s, vf::Rng& r) {
 inline std::string hostile_text(vf::Rng& r, size_t max_len) {
   std::string t;
   size_t n = r.range(1, max_len);
-  switch (r.below(10)) {
+  switch (r.below(12)) {
+    case 10:
+    case 11: {  // opener flood (more containers than the text can legally hold), then members and closers
+      bool obj = r.below(3) == 0;
+      size_t d = r.range(1, n);
+      for (size_t i = 0; i < d; i++) t += obj ? (r.coin() ? "{\"a\":" : "[{\"k\":") : "[";
+      static const char* elems[] = {"null", "true", "false", "\"s\"", "1", "[]", "{}", "-0.5"};
+      size_t m = r.range(0, 12);
+      const char* e = elems[r.below(8)];
+      for (size_t i = 0; i < m; i++) {
+        if (i) t += ",";
+        if (obj) t += "\"k" + std::to_string(i) + "\":";
+        t += r.below(4) ? e : elems[r.below(8)];
+      }
+      size_t c = r.range(0, 3);
+      for (size_t i = 0; i < c; i++) t += obj ? "}" : "]";
+      break;
+    }
     case 0: t.assign(n, '['); break;
     case 1: t.assign(n, '{'); break;
     case 2:
